@@ -468,7 +468,73 @@ class C20(Prop):
         return None
 
 
-REGISTRY = {c.id: c for c in (C02(), C09(), C10(), C11(), C14(), C17(), C20())}
+class C07(BuilderProp):
+    id = "C07"
+    projection_name = "out + items (built bytes, their parse result, the TLV items read back)"
+    streams = (buildgen.parse_round_trip,)
+
+    def groups(self, stream, e, meta):
+        c, ops = e
+        yield ("wire", ["buildparse %s %s" % (c, ";".join(ops) if ops else "-")])
+
+    def classify(self, case, line):
+        c = case.split(" ")[1].split(",")
+        return "%s fam=%s tlvs=%d" % (line.split(" ")[0].split("@")[0], c[3], min(len(case.split(" ")[2].split(";")), 3) if case.split(" ")[2] != "-" else 0)
+
+    def neighbours(self, case, rng):
+        _, c, ops = case.split(" ")
+        ops = [] if ops == "-" else ops.split(";")
+        for i in range(len(ops)):
+            for j in range(i + 1, len(ops) + 1):
+                for g in self.groups("neighbourhood", (c, ops[:i] + ops[j:]), {}):
+                    yield (g[0], g[1], {})
+
+    def oracle(self, tag, cases, impl, spec, meta):
+        line = impl[0]
+        if line == "PANIC":
+            return "build / parse panicked"
+        m = re.match(r"WIRE (\S+) (c\d) (p\d) (\S+) \[(.*)\]$", spec[0])
+        if not m:
+            return None
+        wire, cmd, tr, addr, tlvs = m.groups()
+        if not line.startswith("OK "):
+            return "a header that fits in 65535 bytes was not built (%s)" % line
+        built, parsed, items = line[3:].split(" | ")
+        if built != wire:
+            return "built bytes are not the wire encoding: %s vs %s" % (built[:200], wire[:200])
+        want = "OK %s v2 %s %s %s i0c1" % (wire, cmd, tr, addr)
+        if parsed != want:
+            return "parsing the built header gives `%s`, expected `%s`" % (parsed[:200], want[:200])
+        if addr != "N":
+            got = re.search(r"\[(.*)\]$", items).group(1)
+            if got != tlvs:
+                return "TLVs read back differ: [%s] vs [%s]" % (got[:200], tlvs[:200])
+        return None
+
+
+class C13(Prop):
+    id = "C13"
+    projection_name = "out (equality of each re-build with the original header bytes)"
+    streams = (v2gen.valid_headers, v2gen.header_tlvs, v2gen.control_v2, v2gen.truncations)
+
+    def groups(self, stream, e, meta):
+        yield ("rebuild", ["rebuild " + e])
+
+    def classify(self, case, line):
+        return line
+
+    def oracle(self, tag, cases, impl, spec, meta):
+        line = impl[0]
+        if line == "PANIC":
+            return "parse / re-build panicked"
+        if line == "REJ":
+            return None
+        if not re.match(r"R=1 S=1 I=[1-] V=[1-]$", line):
+            return "re-encoding a parsed header does not reproduce it: %s (R raw bytes, S TLV section value, I decoded items, V decoded address value; 0 = different bytes, E = build error)" % line
+        return None
+
+
+REGISTRY = {c.id: c for c in (C02(), C07(), C09(), C10(), C11(), C13(), C14(), C17(), C20())}
 
 
 def get(prop):
